@@ -52,12 +52,12 @@ static int cmp_key(void const *ctx, void const *b)
 enum
 {
     L_RM_LEAF, L_RM_ONE, L_RM_TWO_SUCC_RIGHT, L_RM_TWO_SUCC_DEEP, L_DUP, L_ROOT_CHANGED, L_SIZE16, L_SIZE64,
-    L_INS_AFTER_RM, L_RM_BLACK, L_BATTERY, L_TEAR_INTERRUPT, L_TEAR_RESTART, L_EMPTIED, L_LEFT_ONLY, L_RIGHT_ONLY, L_RM_ROOT, L_MANUAL_INSERT
+    L_INS_AFTER_RM, L_RM_BLACK, L_BATTERY, L_TEAR_INTERRUPT, L_TEAR_RESTART, L_EMPTIED, L_LEFT_ONLY, L_RIGHT_ONLY, L_RM_ROOT, L_MANUAL_INSERT, L_TEAR_START_NODE
 };
 static char const *const labels[] = {"remove_leaf", "remove_one_child", "remove_two_children_successor_is_right_child",
                                      "remove_two_children_deeper_successor", "duplicate_insert", "root_changed", "size_ge_16", "size_ge_64",
                                      "insert_after_remove", "rbt_removed_black_node", "iterator_battery_on_ge5_nodes", "tear_interrupted_midway",
-                                     "tear_restarted_from_null", "tree_emptied_and_refilled", "has_left_only_node", "has_right_only_node", "remove_root", "manual_link_plus_insert_adjust", nullptr};
+                                     "tear_restarted_from_null", "tree_emptied_and_refilled", "has_left_only_node", "has_right_only_node", "remove_root", "manual_link_plus_insert_adjust", "tear_started_at_arbitrary_node", nullptr};
 static char const *const metrics[] = {"max_live_nodes", "max_height", nullptr};
 static uint8_t const dict[] = {4, 5, 6, 12, 13, 20, 21};
 
@@ -301,7 +301,7 @@ static void battery(Ctx &cx, R *root, size_t n)
 
 // tear-down with interruption after j hand-outs; mode 0: continue with saved next,
 // mode 1: restart with next = NULL, mode 2: use the FORTEAR macro uninterrupted
-static void tear_down(Ctx &cx, Tree &t, size_t j, int mode, bool do_free)
+static void tear_down(Ctx &cx, Tree &t, size_t j, int mode, bool do_free, long start = -1)
 {
     size_t n = t.model.size();
     R *root = &t.root;
@@ -340,6 +340,14 @@ static void tear_down(Ctx &cx, Tree &t, size_t j, int mode, bool do_free)
     else
     {
         N *next = nullptr;
+        if (start >= 0 && n)
+        {
+            // the documented input of the cursor: an arbitrary starting node (in-order rank `start`)
+            std::vector<N *> all;
+            ref_in(root->node, all);
+            next = all[size_t(start) % all.size()];
+            cx.label(L_TEAR_START_NODE);
+        }
         N *cur;
         size_t k = 0;
         while (k < j && (cur = TF(tear)(root, &next)) != nullptr)
@@ -492,6 +500,7 @@ static void run_case(Tape &tp, Ctx &cx)
     unsigned period = 1 + tp.u8() % 8;
     unsigned tear_j = tp.u8();
     int tear_mode = tp.u8() % 3;
+    long tear_start = (tp.u8() % 3 == 0) ? long(tp.u8()) : -1;
 #endif
     cx.hash.add(uint64_t(U));
     cx.log("%s, key universe %d\n", kName, U);
@@ -628,7 +637,9 @@ static void run_case(Tape &tp, Ctx &cx)
         cx.hash.add(j);
         cx.hash.add(uint64_t(tear_mode));
         cx.log("tear-down of %zu elements: interrupt after %zu, mode %d\n", n, j, tear_mode);
-        tear_down(cx, t, j, tear_mode, true);
+        if (tear_start >= 0 && tear_mode == 2) { tear_mode = 0; }
+        cx.hash.add(uint64_t(tear_start + 1));
+        tear_down(cx, t, j, tear_mode, true, tear_start);
     }
 #else
     if (nins >= 8 && two_child && ins_after_rm) { cx.rep->nontrivial = true; }
@@ -692,7 +703,7 @@ static int enum_order(std::vector<int> const &order, vp_enum_stats *st, uint64_t
                         uint64_t sh = shape_of(t.root.node);
                         if (t.model.size() >= 5 && w.left_only && w.right_only && shapes.insert(sh).second) { ++nt; }
                         size_t jj = size_t(j) <= t.model.size() ? size_t(j) : t.model.size();
-                        tear_down(cx, t, jmax ? jj : t.model.size() / 2, jmax ? mode : (r1 + r2) & 1, true);
+                        tear_down(cx, t, jmax ? jj : t.model.size() / 2, jmax ? mode : (r1 + r2) & 1, true, (jmax && mode == 1) ? long(j) : ((r1 >= 0 && r2 >= 0) ? long(r1 + r2) : -1));
                         ++cnt;
                     }
                     catch (vp_fail const &)
